@@ -300,6 +300,8 @@ def run_case(case, ctx):
     st = ctx.stats
     style = case["style"]
     a = build(rng, case)
+    from vmon.oracle.util import flavour
+    st.seen("array_flavour", flavour(a, case["s"] // 7))
     w = {"style": style, "structure": atomsgen.describe(a)}
 
     def fail(msg, cls):
@@ -406,6 +408,11 @@ def run_case(case, ctx):
     # history: the object that has just been written is edited (same sizes everywhere) and written again; the second file
     # must state the object's content at the time of the second write
     if case["s"] % 2 == 0 and len(a):
+        # (an object whose arrays are flagged read-only cannot be edited where it is: the user rebinds writable copies first)
+        for name in ["positions", "charges", "atom_types", "cell", "groups"] + [atomsgen.ARR[k] for k in atomsgen.KNAMES] + ["%s_types" % k for k in atomsgen.KNAMES]:
+            v = getattr(a, name)
+            if isinstance(v, np.ndarray) and not v.flags.writeable:
+                setattr(a, name, v.copy())
         edits = []
         nat = len(a.atom_type_labels)
         pick = int(rng.integers(4))
@@ -478,6 +485,8 @@ def requirements(stats, tier):
         need.append("structures with coordinates <= -100 or >= 1000: %d" % stats.get("structures_with_coordinates_beyond_the_usual_field_width"))
     if stats.get("structures_with_non_ascii_labels_and_comments.via_save_load_path") < (5 if tier == "quick" else 500):
         need.append("structures with non-ASCII labels and comments saved to and loaded from a path: %d" % stats.get("structures_with_non_ascii_labels_and_comments.via_save_load_path"))
+    if stats.nseen("array_flavour") < 5:
+        need.append("array flavours of the structure (integer widths, memory order, read-only): %s" % sorted(stats.sets.get("array_flavour", [])))
     if stats.get("structures_with_an_empty_type_label") < (5 if tier == "quick" else 1000):
         need.append("structures with an empty type label: %d" % stats.get("structures_with_an_empty_type_label"))
     if stats.nseen("style") < 2 or stats.nseen("tables") < 5:
